@@ -79,6 +79,7 @@ TRACE_DOCS = [
     '<b><b><b><b>x</b></b>y<table>z<td>w',
     '<html><head></head><frameset><frame></frameset>',
     '<template><b><td>x</td></b></template><i>y',
+    '#frag:div:<b>x<table><td>y</td></table>z', '#frag:template:<tr><td>x</td></tr>y', '#frag:select:<option>x<b>y', '#frag:td:<i>x<p>y</i>z',
 ]
 
 
@@ -150,7 +151,7 @@ def run_kani_unit(name, tier):
         return _sweep(name, 'hshadow', ['%s\t%s\t%s' % c for c in SHADOW_CASES],
                       '%d template start tags (documents and fragments): hosts of the declarative shadow roots requested from the sink vs the hosts the WHATWG rule prescribes' % len(SHADOW_CASES))
     if name == 'b_trace':
-        return _sweep(name, 'htrace', TRACE_DOCS, '%d HTML documents x every split point x (no script action | a script detaches one of the existing elements); '
+        return _sweep(name, 'htrace', TRACE_DOCS, '%d HTML documents and fragments x every split point x (no script action | a script detaches one of the existing elements); '
                       'handles used by the tree builder after the suspension point vs the handles trace_handles reported (and what is connected to them)' % len(TRACE_DOCS))
     if name == 'b_hser':
         import itertools
